@@ -31,6 +31,19 @@ impl log::Log for Sink {
 static SINK: Sink = Sink;
 
 fn main() {
+    // servers run in all sorts of time zones: three workers in four get one (POSIX TZ strings, no
+    // zone files needed), set before any thread exists
+    {
+        let w: usize = std::env::var("TCSS_WORKER").ok().and_then(|v| v.split(':').nth(1).and_then(|w| w.parse().ok())).unwrap_or(0);
+        if std::env::var("TCSS_KEEP_TZ").is_err() {
+            match w % 4 {
+                1 => std::env::set_var("TZ", "LINT-14"),
+                2 => std::env::set_var("TZ", "AOE12"),
+                3 => std::env::set_var("TZ", "IST-5:30"),
+                _ => std::env::set_var("TZ", "UTC0"),
+            }
+        }
+    }
     // every second worker process (and the parent) runs with logging enabled at every level
     let worker: Option<usize> = std::env::var("TCSS_WORKER").ok().and_then(|v| v.split(':').nth(1).and_then(|w| w.parse().ok()));
     if worker.map(|w| w % 2 == 1).unwrap_or(true) && std::env::var("TCSS_NO_LOGGER").is_err() {
